@@ -510,6 +510,8 @@ class Registry:
         raise OutOfSubset(f"call of unknown function {n} at line {getattr(node, 'lineno', '?')}")
 
     code_visible_specfuns = set()
+    module_constants = {}   # "module.NAME" -> value, for <imported module>.<CONSTANT> expressions (e.g. re.DOTALL)
+    upcasts = {}   # (record type, opaque interface type) -> z3 function: a record viewed as an object of the abstract interface it implements
 
     def instantiate(self, eng, cls, init, args, kwargs, st, node):
         """ClassName(args): a fresh record initialised by the contract of __init__."""
@@ -559,6 +561,12 @@ class Registry:
         try:
             for nm, tn in zip(names, type_nodes):
                 t = parse_type(ast.unparse(tn))
+                if t[0] == "obj":
+                    # a quantifier over records binds ONE variable of the record's snapshot sort; its fields are the accessor terms
+                    c_ = eng.bv(nm, sort_of(t))
+                    vs.append(from_term(t, c_))
+                    consts.append(c_)
+                    continue
                 v = eng.bvar(nm, t)
                 vs.append(v)
                 consts += self.consts_of(v)
@@ -794,6 +802,8 @@ class Registry:
             return [(st, V(("list",), items["concrete"]))]
         elt = items["elt"]
         et = elt.t
+        if et[0] == "obj" and not isinstance(node.elt, ast.Call):
+            raise OutOfSubset("comprehension element is a record that is still reachable under a name (records are collected by value)")
         y = z3.Const(fresh_name("y"), sort_of(et))
         body = z3.Exists(items["consts"], z3.And(items["member"], y == to_term(elt)))
         arr = eng.mkset(st, [y], body)
@@ -971,7 +981,7 @@ class Registry:
         lineno = getattr(node, "lineno", 0)
         pnames = list(c.params)
         if len(args) > len(pnames):
-            raise ContractDrift(f"{c.key}: too many arguments")
+            raise BindMismatch(f"{c.key}: too many arguments")   # (a ContractDrift) -- lets an alternative contract with more parameters bind
         bound = {}
         for n, a in zip(pnames, args):
             bound[n] = a
@@ -1018,6 +1028,11 @@ class Registry:
                     a_ = a_.x[1]
                 if a_.t[0] == "bag" and c.params[n][0] == "seq" and not eng.spec and getattr(eng, "qdepth", 0) == 0:
                     a_ = self.bag_as_seq(st, a_, c.params[n])
+                up_ = self.upcasts.get((a_.t[1], c.params[n][1])) if (a_.t[0] in ("bag", "set") and c.params[n][0] in ("bag", "set")) else None
+                if up_ is not None and getattr(eng, "qdepth", 0) == 0:
+                    # a collection of records passed where the contract speaks about (opaque) interface objects: the image under the registered injection
+                    h_, r_ = z3.Const(fresh_name("h"), sort_of(c.params[n][1])), z3.Const(fresh_name("r"), sort_of(a_.t[1]))
+                    a_ = V(c.params[n], eng.mkset(st, [h_], z3.Exists([r_], z3.And(z3.Select(a_.x, r_), h_ == up_(r_)))))
                 cs.vars[n] = coerce(a_, c.params[n]) if c.params[n][0] != "closure" and c.params[n] != ("opaque", "Any") else a_
             except TypeError as e:
                 raise BindMismatch(f"{c.key}: argument {n}: {e} (line {lineno})")
@@ -1041,6 +1056,17 @@ class Registry:
             if not eng.spec and getattr(eng, "qdepth", 0) == 0:
                 for e, t in eng.spec_conj(c.requires, cs):
                     eng.oblige(st, t, "pre@call", f"pre@call[{c.key}@{lineno}:{e[:40]}]", lineno)
+            if c.raises and c.pure and not eng.spec and getattr(eng, "qdepth", 0) == 0:
+                # a pure callee that may raise, called from executed code: fork the exceptional outcomes exactly as for any other call; on the
+                # normal continuation the result is the function application (whose axiom is guarded by 'no raises-condition holds')
+                for exc, cond in c.raises:
+                    t = zand(*[t_ for _, t_ in eng.spec_conj([cond], cs)])
+                    s_r = st.fork()
+                    s_r.assume(t)
+                    if feasible(s_r):
+                        eng.do_raise(s_r, exc, lineno)
+                    st.assume(znot(t))
+                return [(st, self.pure_fn_app(eng, c, cs, lineno, raises_handled=True))]
             return [(st, self.pure_fn_app(eng, c, cs, lineno))]
         saved_res = eng.result
         saved_bound = eng.bound
@@ -1141,11 +1167,11 @@ class Registry:
             eng.result = saved_res
             eng.bound = saved_bound
 
-    def pure_fn_app(self, eng, c, cs, lineno):
-        scalar = ("bool", "str", "int", "node", "data", "bag", "set")
+    def pure_fn_app(self, eng, c, cs, lineno, raises_handled=False):
+        scalar = ("bool", "str", "int", "node", "data", "bag", "set", "obj")   # obj: a freshly built record, denoted by its snapshot term (vals.obj_sort)
         is_opt = c.returns is not None and c.returns[0] == "opt" and c.returns[1][0] in scalar
         in_comp = (not eng.spec) and bool(getattr(eng, "_comp_ctx", None))
-        if c.modifies or (c.raises and not (in_comp or eng.spec)) or c.returns is None or not (c.returns[0] in scalar or is_opt):
+        if c.modifies or (c.raises and not (in_comp or eng.spec or raises_handled)) or c.returns is None or not (c.returns[0] in scalar or is_opt):
             raise OutOfSubset(f"call of {c.key} under a binder: needs a 'defn' contract or a pure total contract with a scalar result")
         if c.raises and in_comp:
             # (in a specification the application just denotes the function; its axiom is guarded by 'no raises-condition holds')
@@ -1183,7 +1209,7 @@ class Registry:
                 ps.old = dict(pvs)
                 consts = [k for v in pvs.values() for k in self.consts_of(v)]
                 app = fn(*[t for v in pvs.values() for t in self.flatten(v)])
-                eng.result = V(c.returns, app)
+                eng.result = from_term(c.returns, app) if c.returns[0] == "obj" else V(c.returns, app)
                 eng.qdepth = 91
                 req = zand(*[t for _, t in eng.spec_conj(c.requires, ps)] + [znot(t) for _, cond in c.raises for _, t in [(None, zand(*[t_ for _, t_ in eng.spec_conj([cond], ps)]))]])
                 ens = zand(*[t for _, t in eng.spec_conj(c.ensures, ps)])
@@ -1191,7 +1217,7 @@ class Registry:
                 eng.__dict__.setdefault("axiom_defs", {})[("pure", c.key)] = fn.name()
             finally:
                 eng.bound, eng.spec, eng.qdepth, eng.result = saved_bound, saved_spec, saved_q, saved_res
-        return V(c.returns, fn(*terms))
+        return from_term(c.returns, fn(*terms)) if c.returns[0] == "obj" else V(c.returns, fn(*terms))
 
     _pure_fns = {}
 
